@@ -87,6 +87,11 @@ int rtr_bgpsec_validate_as_path(const struct rtr_bgpsec *data, struct spki_table
 	 */
 	struct rtr_signature_seg *tmp_sig = NULL;
 
+	/* The Secure_Path Segment that belongs to tmp_sig: the signature must
+	 * verify under a router key of that segment's AS.
+	 */
+	struct rtr_secure_path_seg *tmp_sec = NULL;
+
 	/* Temp variable that holds the signature length of the of the
 	 * next signature segment.
 	 */
@@ -169,6 +174,7 @@ int rtr_bgpsec_validate_as_path(const struct rtr_bgpsec *data, struct spki_table
 	 */
 	retval = RTR_BGPSEC_VALID;
 	tmp_sig = data->sigs;
+	tmp_sec = data->path;
 
 	for (unsigned int offset = 0, next_offset = 0; offset <= get_stream_size(s) && retval == RTR_BGPSEC_VALID;
 	     offset += next_offset) {
@@ -208,8 +214,20 @@ int rtr_bgpsec_validate_as_path(const struct rtr_bgpsec *data, struct spki_table
 			goto err;
 		}
 
+		/* Unless a key of the segment's own AS is tried below, the
+		 * router key for this hop is missing.
+		 */
+		retval = RTR_BGPSEC_ROUTER_KEY_NOT_FOUND;
+
 		/* Loop in case there are multiple router keys for one SKI. */
 		for (unsigned int j = 0; j < router_keys_len; j++) {
+			/* Only a router key that is registered for the AS of
+			 * this Secure_Path Segment may verify its signature; a
+			 * key of another AS that shares the SKI does not count.
+			 */
+			if (tmp_key && tmp_key[j].asn != tmp_sec->asn)
+				continue;
+
 			/* Validate the siganture depending on the algorithm
 			 * suite. More if-cases are added with new algorithm
 			 * suites.
@@ -231,6 +249,7 @@ int rtr_bgpsec_validate_as_path(const struct rtr_bgpsec *data, struct spki_table
 		hash_result = NULL;
 		tmp_key = NULL;
 		tmp_sig = tmp_sig->next;
+		tmp_sec = tmp_sec->next;
 	}
 
 err:
